@@ -184,6 +184,8 @@ class Interp:
         i = op.get("inst", 0)
         if k == "runexec":
             return self._runexec(op)
+        if k == "cancelrun":
+            return self._cancelrun(op)
         inst = self.insts[i]
         if k == "call":
             args = op.get("args", [])
@@ -235,6 +237,53 @@ class Interp:
         if k == "compose":
             return self._compose(op, inst, i)
         raise ValueError(k)
+
+    def _cancelrun(self, op: Dict[str, Any]) -> List[Finding]:
+        """First run of an AsyncDAGExecution inside a task that is cancelled as soon as one node has finished: a
+        cancelled run is a failed run (the executor has consumed part of its graph).  If the run completes before the
+        cancellation lands it is judged like any first run."""
+        rec = self.execs[op["e"]]
+        if not self.is_async or rec["runs"] > 0:
+            return self._runexec(dict(op, op="runexec"))
+        inst = self.insts[rec["inst"]]
+        args = op.get("args", [])
+        selected = selection(self.M, rec["sel"])
+        ex = sched.Exec("free", sleeps={s: 3 for s in self.M.key.values()})
+        ex.op = self.n
+        state: Dict[str, Any] = {}
+
+        async def main() -> None:
+            task = asyncio.get_running_loop().create_task(rec["e"](*[dec(a) for a in args]))
+            for _ in range(4000):
+                if task.done() or any(e["k"] == "EXIT" for e in ex.events):
+                    break
+                await asyncio.sleep(0.0002)
+            if not task.done():
+                task.cancel()
+            try:
+                state["val"] = await task
+            except asyncio.CancelledError:
+                state["cancelled"] = True
+            except BaseException as e:  # noqa: BLE001
+                state["exc"] = e
+
+        try:
+            with ex:
+                asyncio.run(main())
+        except BaseException as e:  # noqa: BLE001
+            if isinstance(e, KeyboardInterrupt):
+                raise
+            state["exc"] = e
+        rec["runs"] += 1
+        if state.get("cancelled"):
+            rec["failed"] = True
+            self.stats["cancelled-runs"] += 1
+            return []
+        what = f"executor #{op['e']} ({rec['sel']}) run no. 1 with {args} (cancellation came too late)"
+        out = self._judge_run(rec["inst"], inst, selected, args, state.get("val"), state.get("exc"), ex, what, sel=rec["sel"])
+        if state.get("exc") is not None:
+            rec["failed"] = True
+        return out
 
     def _runexec(self, op: Dict[str, Any]) -> List[Finding]:
         from tawazi.errors import TawaziUsageError
